@@ -1,4 +1,5 @@
 import PgBifrost.Proofs.BatcherBuilt
+import PgBifrost.Gen.FactoryOpts
 import PgBifrost.Proofs.BatcherDrops
 import PgBifrost.Gen.Consts
 import PgBifrost.Gen.BatcherSwitch
@@ -252,5 +253,49 @@ theorem kafka_add_as_in_source (n maxBytes : Nat) (b : Batch) (m : Msg) :
     · simp [h, h2]; decide
 
 end source
+
+/-- The sink factories as written: inside each factory function every local is traced back to the option it was read
+from, and every constructor call, batch-factory literal and sarama configuration assignment is listed with its
+arguments resolved to those options. Each limit reaches its consumer from the option of its OWN name - the Kafka batch
+factory's per-message limit from `kafka-max-message-bytes` and its record count from `kafka-batch-size`, the producer's
+`MaxMessageBytes` from the same `kafka-max-message-bytes`, its flush threshold from `kafka-flush-bytes`; the S3 and RabbitMQ
+batch factories' record count from their batch-size options; the workers get the stream / bucket / key space / exchange of
+their own options, and the sync producer reports successes and errors. -/
+theorem factory_options_as_in_source :
+    PgBifrost.Gen.FactoryOpts.calls = [
+      ("transport/transporters/kafka/factory.go:New", "producerConfig", ["opt:ConfVarKafkaTls", "opt:ConfVarKafkaClusterCA", "opt:ConfVarKafkaPrivateKey", "opt:ConfVarKafkaPublicKey", "opt:ConfVarKafkaFlushBytes", "opt:ConfVarKafkaFlushFrequency", "opt:ConfVarKafkaMaxMessageBytes", "opt:ConfVarKafkaRetryMax"]),
+      ("transport/transporters/kafka/factory.go:New", "sarama.NewSyncProducer", ["[]string{bootstrapServer}", "config"]),
+      ("transport/transporters/kafka/factory.go:New", "transporter.NewTransporter", ["shutdownHandler", "inputChans[i]", "statsChan", "txnsWritten", "*log", "syncProducer", "opt:ConfVarKafkaTopic"]),
+      ("transport/transporters/kafka/factory.go:NewBatchFactory", "KafkaBatchFactory{}", ["opt:ConfVarKafkaTopic", "opt:ConfVarKafkaMaxMessageBytes", "opt:ConfVarKafkaBatchSize", "partMethod"]),
+      ("transport/transporters/kinesis/factory.go:New", "transporter.NewTransporter", ["shutdownHandler", "inputChans[i]", "txnsWritten", "statsChan", "*log", "i", "opt:ConfVarStreamName", "retryPolicy", "&opt:ConfVarAwsRegion", "&opt:ConfVarAwsAccessKeyId", "&opt:ConfVarAwsSecretAccessKey", "&opt:ConfVarEndpoint"]),
+      ("transport/transporters/kinesis/factory.go:NewBatchFactory", "KinesisBatchFactory{}", ["kinesisPartMethod"]),
+      ("transport/transporters/s3/factory.go:New", "transporter.NewTransporter", ["shutdownHandler", "inputChans[i]", "txnsWritten", "statsChan", "*log", "i", "opt:ConfVarBucketName", "opt:ConfVarKeySpace", "retryPolicy", "&opt:ConfVarAwsRegion", "&opt:ConfVarAwsAccessKeyId", "&opt:ConfVarAwsSecretAccessKey", "&opt:ConfVarEndpoint", "opt:ConfVarBufMaxRuse"]),
+      ("transport/transporters/s3/factory.go:NewBatchFactory", "batch.NewGenericBatchFactory", ["opt:ConfVarPutBatchSize"]),
+      ("transport/transporters/rabbitmq/factory.go:New", "transporter.NewConnectionManager", ["opt:ConfVarURL", "log", "makeDialer(amqpURL)"]),
+      ("transport/transporters/rabbitmq/factory.go:New", "makeDialer", ["opt:ConfVarURL"]),
+      ("transport/transporters/rabbitmq/factory.go:New", "transporter.NewTransporter", ["shutdownHandler", "inputChans[i]", "txnsWritten", "statsChan", "*log", "i", "opt:ConfVarExchangeName", "connMan", "opt:ConfVarWriteBatchSize", "retryPolicy"]),
+      ("transport/transporters/rabbitmq/factory.go:NewBatchFactory", "batch.NewGenericBatchFactory", ["opt:ConfVarWriteBatchSize"])
+    ] ∧
+    PgBifrost.Gen.FactoryOpts.producerParams = ["kafkaTLS", "clusterCA", "clientPrivateKey", "clientPublicKey", "kafkaFlushBytes", "kafkaFlushFrequency", "maxMessageBytes", "kafkaRetryMax"] ∧
+    PgBifrost.Gen.FactoryOpts.producerConf = [
+      ("config.Version", "sarama.V3_0_0_0"),
+      ("config.ChannelBufferSize", "256"),
+      ("config.Net.DialTimeout", "10 * time.Second"),
+      ("config.Net.ReadTimeout", "10 * time.Second"),
+      ("config.Net.WriteTimeout", "10 * time.Second"),
+      ("config.Producer.Flush.Bytes", "kafkaFlushBytes"),
+      ("config.Producer.Flush.Frequency", "time.Duration(kafkaFlushFrequency) * time.Millisecond"),
+      ("config.Producer.Return.Successes", "true"),
+      ("config.Producer.Return.Errors", "true"),
+      ("config.Producer.Compression", "sarama.CompressionSnappy"),
+      ("config.Producer.MaxMessageBytes", "maxMessageBytes"),
+      ("config.Producer.Retry.Backoff", "500 * time.Millisecond"),
+      ("config.Producer.Partitioner", "sarama.NewHashPartitioner"),
+      ("config.Metadata.Full", "false"),
+      ("config.Metadata.RefreshFrequency", "5 * time.Minute"),
+      ("config.Metadata.Timeout", "20 * time.Second"),
+      ("config.Metadata.Retry.Max", "kafkaRetryMax"),
+      ("config.Metadata.Retry.BackoffFunc", "metadataBackoff")
+    ] := ⟨rfl, rfl, rfl⟩
 
 end PgBifrost.Props.C15
